@@ -6,6 +6,7 @@ from typing import Dict, List, Optional, Tuple, Union
 from generator import model
 
 from .rust_lang_utils import (
+    RUST_KEYWORDS,
     get_parts,
     indent_lines,
     lines_to_doc_comments,
@@ -577,7 +578,7 @@ def generate_property(
         else []
     )
 
-    if prop_name in ["type"]:
+    if prop_name in RUST_KEYWORDS:
         prop_name = f"{prop_name}_"
         if optional:
             optional = [
